@@ -17,6 +17,7 @@ import asyncio
 import copy
 import itertools
 import json
+import math
 
 from common import (Ctx, Failure, cbool, cjson, clist, cnat, copt, cpair, cstr, cz, corpus_cases)
 
@@ -100,7 +101,10 @@ def msg_of(o):
 
 KEYS = ["a", "b", "c", "name", "items", "spec", "k", "", "é"]
 STRS = ["", "a", "b", "A", "1", "0", "True", "None", "x y", "日本"]
-NUMS = [0, 1, -1, 2, 7, 64, 2 ** 53 + 1, 0.0, 1.0, 2.5, -1.0, float(2 ** 53)]
+NUMS = [0, 1, -1, 2, 7, 64, 2 ** 53 + 1, 0.0, 1.0, 2.5, -1.0, float(2 ** 53),
+        # large magnitudes, where "close" and "equal" part company
+        2 ** 31, 2 ** 32, 2 ** 32 + 1, 2 ** 53 - 1, 10 ** 12, 1700000000123, -(2 ** 40), 2 ** 63 - 1,
+        1e12, 1700000000123.5, 0.1 + 0.2, 1e-9, 6.02e23]
 SCALARS = [None, True, False] + NUMS + STRS
 
 
@@ -144,6 +148,15 @@ def set_at(j, p, v):
     return j
 
 
+def nudge(rng, x):
+    """the nearest different number: an int +-1, a float moved to the next representable value (a changed leaf,
+    however large the number is)"""
+    if isinstance(x, int):
+        return x + rng.choice([1, -1])
+    y = math.nextafter(x, rng.choice([math.inf, -math.inf]))
+    return y if math.isfinite(y) else math.nextafter(x, 0.0)
+
+
 def fresh_scalar(rng, old):
     for _ in range(50):
         v = rand_scalar(rng)
@@ -161,15 +174,17 @@ def perturb(rng, j, allow_root_retype=True):
     Never introduces a directive-named key; never maps a number to an ==-equal number."""
     ps = list(paths(j))
     rng.shuffle(ps)
-    kinds = ["leaf-changed", "leaf-retyped", "key-missing", "key-extra", "list-swap", "list-shorter",
+    kinds = ["leaf-changed", "leaf-nudged", "leaf-nudged", "leaf-retyped", "key-missing", "key-extra", "list-swap", "list-shorter",
              "list-longer", "to-container", "to-scalar", "null-vs-missing"]
     rng.shuffle(kinds)
     for kind in kinds:
         for p in ps:
             node = get_at(j, p)
-            if not p and not allow_root_retype and kind in ("leaf-changed", "leaf-retyped", "to-container", "to-scalar"):
+            if not p and not allow_root_retype and kind in ("leaf-changed", "leaf-nudged", "leaf-retyped", "to-container", "to-scalar"):
                 continue
             is_scalar = not isinstance(node, (dict, list))
+            if kind == "leaf-nudged" and isinstance(node, (int, float)) and not isinstance(node, bool):
+                return set_at(j, p, nudge(rng, node)), kind
             if kind == "leaf-changed" and is_scalar:
                 return set_at(j, p, fresh_scalar(rng, node)), kind
             if kind == "leaf-retyped" and is_scalar:
@@ -671,6 +686,23 @@ def key_values_ok(t, a) -> bool:
 # unit-level case generation
 # =============================================================================================
 
+# delays: the CRD says `type: integer` (no bounds) — boundaries of minutes / hours / a day, and a very large one
+DELAYS = [0, 1, 59, 60, 3599, 3600, 3601, 5400, 86400, 2 ** 31 - 1]
+DELAY_PAIRS = [(0, 5), (5, 5), (5, 6), (0, 0), (7, 0),
+               (5400, 5400), (5400, 3600), (3600, 5400), (3601, 3600), (3600, 3600), (3599, 3600), (0, 86400),
+               (86400, 86400), (86400, 86399), (2 ** 31 - 1, 2 ** 31 - 1), (2 ** 31 - 1, 3600), (60, 59)]
+
+
+def other_delays(d):
+    """single perturbations of a delay: +-1 and large amounts; never 0 (which means "any") and never d itself"""
+    cands = [d - 1, d + 1, d + 59, d + 3600, 2 * d + 10, 60, 3600, 3601, 5400, 86400, 2 ** 31 - 1]
+    out = []
+    for c in cands:
+        if c > 0 and c != d and c not in out:
+            out.append(c)
+    return out
+
+
 def gen_unit(ctx: Ctx):
     """yields (case, truth) — truth: True = must pass, False = must fail, None = no ground truth
     (correspondence only), 'iff' = decide with the independent restatement."""
@@ -678,7 +710,9 @@ def gen_unit(ctx: Ctx):
     q = ctx.quick()
 
     # (d) exhaustive scalar x scalar table: plain, in lists, in set-compared lists, under a key
-    pool = [None, True, False, 0, 1, 2, 0.0, 1.0, 2.5, "", "1", "a", "True", [], {}, [1], {"a": 1}]
+    pool = [None, True, False, 0, 1, 2, 0.0, 1.0, 2.5, "", "1", "a", "True", [], {}, [1], {"a": 1},
+            4294967296, 4294967297, 4294967296.0, 1700000000123, 1700000000123.5, math.nextafter(1700000000123.5, math.inf),
+            0.1 + 0.2, 0.3]
     for x, y in itertools.product(pool, repeat=2):
         yield {"kind": "match", "t": x, "a": y, "origin": "table"}, "iff"
         yield {"kind": "match", "t": [x], "a": [y], "origin": "table-list"}, "iff"
@@ -773,7 +807,8 @@ def gen_unit(ctx: Ctx):
         for em, am in itertools.product(msgs, repeat=2):
             if q and rng.random() < 0.55:
                 continue
-            for ed, ad in ([(0, 5), (5, 5), (5, 6), (0, 0), (7, 0)] if "Retry" in (ec, ac) else [(0, 0)]):
+            for ed, ad in ((DELAY_PAIRS if not q else DELAY_PAIRS[:5] + rng.sample(DELAY_PAIRS[5:], 3))
+                           if "Retry" in (ec, ac) else [(0, 0)]):
                 if ec == "None":
                     e = None
                 elif ec == "Ok":
@@ -856,6 +891,14 @@ def gen_unit(ctx: Ctx):
              {"bogus": {}}, {"skip": {"message": 5}}, {"skip": {"message": None}}, {"skip": "text"}]
     for s in specs:
         yield {"kind": "parse", "spec": s}, None
+    # well-formed assertions: what prepare builds must say what was written (class, message, delay)
+    for d in DELAYS + [5, 18, 7200, 10 ** 12]:
+        for m in ["", "Not Ready yet", "x"]:
+            yield {"kind": "parse", "spec": {"retry": {"message": m, "delay": d}}}, "as-written"
+    for k in ("skip", "depSkip", "permFail"):
+        for m in ["", "Waiting on Dependency", "MiXed Case"]:
+            yield {"kind": "parse", "spec": {k: {"message": m}}}, "as-written"
+    yield {"kind": "parse", "spec": {"ok": {}}}, "as-written"
 
 
 # =============================================================================================
@@ -863,13 +906,15 @@ def gen_unit(ctx: Ctx):
 # =============================================================================================
 
 SAFE_STRS = ["a", "b", "value", "Hello World", "x-y_z", "64", "true-ish", ""]
+# large numbers (within int64, which is all CEL can carry): sizes, epoch milliseconds, computed doubles
+E2E_BIG = [2 ** 31, 4294967296, 2 ** 53 + 1, 1700000000123, 10 ** 12, 1e12, 1700000000123.5, 0.1 + 0.2]
 
 
 def e2e_json(rng, depth=2, top_dict=False):
     """values that survive koreo's literal encoder and celpy unchanged (no CEL syntax, small ints)"""
     r = rng.random()
     if depth <= 0 or (r < 0.5 and not top_dict):
-        return rng.choice([None, True, False, 0, 1, 2, 7, 64, -3, 1.5, 2.0] + SAFE_STRS)
+        return rng.choice([None, True, False, 0, 1, 2, 7, 64, -3, 1.5, 2.0] + SAFE_STRS + E2E_BIG)
     if r < 0.7 and not top_dict:
         return [e2e_json(rng, depth - 1) for _ in range(rng.choice([0, 1, 2, 3]))]
     keys = rng.sample(["a", "b", "c", "name", "items", "enabled", "count"], rng.choice([1, 2, 3]))
@@ -926,13 +971,14 @@ def gen_function(rng, intent=None):
     fkind, mode, policy, state = intent if intent else rng.choice(INTENTS)
     payload = e2e_json(rng, 2, top_dict=True)
     # something a compare directive applies to: a list of distinct scalars, a list of named objects
+    payload["size"] = rng.choice(E2E_BIG)
     payload["zones"] = rng.sample(["a", "b", "c", "eu-1", 7, 12], rng.choice([2, 3, 4]))
     payload["ports"] = [{"name": n, "port": rng.choice([80, 443, 8080]), "opts": {"roles": rng.sample(["reader", "writer", "admin"], 2)}}
                         for n in rng.sample(["http", "https", "metrics", "grpc"], rng.choice([2, 3]))]
     pre = [
         {"assert": "=inputs.mode != 'skip'", "skip": {"message": "User disabled the Function"}},
         {"assert": "=inputs.mode != 'depSkip'", "depSkip": {"message": "Waiting on Dependency"}},
-        {"assert": "=inputs.mode != 'retry'", "retry": {"message": "Not Ready yet", "delay": rng.choice([1, 5, 18, 60])}},
+        {"assert": "=inputs.mode != 'retry'", "retry": {"message": "Not Ready yet", "delay": rng.choice(DELAYS)}},
         {"assert": "=inputs.mode != 'permFail'", "permFail": {"message": "Input is INVALID: bad mode"}},
     ]
     if fkind == "ValueFunction":
@@ -940,8 +986,8 @@ def gen_function(rng, intent=None):
                 "return": {"payload": "=inputs.payload", "static": e2e_json(rng, 2), "n": "=inputs.n * 2"}}
         return {"fkind": "ValueFunction", "spec": spec, "inputs": {"mode": mode, "payload": payload, "n": rng.choice([0, 1, 21])},
                 "current": None, "intent": f"vf-{mode}"}
-    update = {"patch": {"delay": rng.choice([3, 30])}} if policy == "patch" else (
-        {"recreate": {"delay": rng.choice([4, 15])}} if policy == "recreate" else {"never": {}})
+    update = {"patch": {"delay": rng.choice(DELAYS)}} if policy == "patch" else (
+        {"recreate": {"delay": rng.choice(DELAYS)}} if policy == "recreate" else {"never": {}})
     body = {"spec": "=inputs.payload", "metadata": {"labels": {"app": "=inputs.app"}}}
     if rng.random() < 0.3:
         body["metadata"]["annotations"] = {"team": "core"}
@@ -949,8 +995,9 @@ def gen_function(rng, intent=None):
             "apiConfig": {"apiVersion": "test.koreo.dev/v1", "kind": "TestResource", "plural": "testresources",
                           "name": "=inputs.name", "namespace": "ns1"},
             "resource": body, "update": update,
-            "create": {"delay": rng.choice([2, 30])},
-            "postconditions": [{"assert": "=has(resource.status.ready)", "retry": {"message": "Waiting for ready-state", "delay": 9}}],
+            "create": {"delay": rng.choice(DELAYS)},
+            "postconditions": [{"assert": "=has(resource.status.ready)",
+                                "retry": {"message": "Waiting for ready-state", "delay": rng.choice(DELAYS)}}],
             "return": {"ref": "=resource.metadata.name", "ready": "=resource.status.ready", "echo": "=inputs.payload"}}
     inputs = {"mode": mode, "payload": payload, "app": rng.choice(SAFE_STRS[:5]), "name": rng.choice(["n1", "obj-2"])}
     cur = None
@@ -1152,6 +1199,10 @@ def derive_assertions(rng, beh):
                 br = break_directed(rng, desc)
                 if br:
                     out.append(({"expectReturn": br[0]}, False, f"return-{br[1]}"))
+        for p_ in paths(val):
+            leaf = get_at(val, p_)
+            if isinstance(leaf, (int, float)) and not isinstance(leaf, bool) and rng.random() < 0.6:
+                out.append(({"expectReturn": set_at(val, p_, nudge(rng, leaf))}, False, "return-leaf-nudged"))
         for _ in range(5):
             pr = perturb(rng, val, allow_root_retype=False)
             if pr and isinstance(pr[0], dict) and pr[0] and not strict_equal(pr[0], val):
@@ -1172,6 +1223,10 @@ def derive_assertions(rng, beh):
                     br = break_directed(rng, desc)
                     if br:
                         out.append(({"expectResource": br[0]}, False, f"resource-{br[1]}"))
+            for p_ in paths(tr):
+                leaf = get_at(tr, p_)
+                if isinstance(leaf, (int, float)) and not isinstance(leaf, bool) and rng.random() < 0.6:
+                    out.append(({"expectResource": set_at(tr, p_, nudge(rng, leaf))}, False, "resource-leaf-nudged"))
             for _ in range(6):
                 pr = perturb(rng, tr, allow_root_retype=False)
                 if pr and isinstance(pr[0], dict) and pr[0] and not strict_equal(pr[0], tr):
@@ -1225,8 +1280,8 @@ def derive_assertions(rng, beh):
                 out.append((frag(v, delay), True, "outcome-truthful"))
         if delay is not None:
             out.append((frag(msg, 0), True, "outcome-truthful-any-delay"))
-            out.append((frag(msg, delay + 1), False, "outcome-other-delay"))
-            out.append((frag("", delay + 7), False, "outcome-other-delay"))
+            for d2 in other_delays(delay):
+                out.append((frag(rng.choice([msg, ""]), d2), False, "outcome-other-delay"))
         out.append((frag(msg + " and more", delay), False, "outcome-message-not-contained"))
         out.append((frag("zzz-never-in-a-message", delay), False, "outcome-message-not-contained"))
         out.append(({"expectOutcome": {"ok": {}}}, False, "outcome-other-class"))
@@ -1406,6 +1461,18 @@ def unit_oracle(case, truth, obs):
             return (f"verdict-{kind}: raises", "the verdict function raised")
         if bool(obs) != want:
             return (f"verdict-{kind}: {'passes' if obs else 'fails'} wrongly", "verdict differs from the assertion's truth")
+        return None
+    if k == "parse" and truth == "as-written":
+        spec = case["spec"]
+        key = next(iter(spec))
+        if key == "ok":
+            want = ["ok"]
+        else:
+            sev = {"depSkip": 0, "skip": 1, "retry": 3, "permFail": 4}[key]
+            want = ["out", sev, spec[key]["message"], spec[key].get("delay") if key == "retry" else None]
+        if obs != want:
+            return (f"parse: the expected outcome built for expectOutcome.{key} is not what was written",
+                    f"prepare built {obs} for {spec}; the assertion says {want}")
         return None
     if k == "mock":
         # what the mock materialises: last DELETE -> {}, else body over current (top-level keys of the body win)
